@@ -107,12 +107,13 @@ class Run:
     def main(self):
         cfg = self.cfg
         print(f"[{self.pid}] tier={self.tier} seed={self.seed}")
+        # translators first: they regenerate model facts from /repo's source, which the Lean build re-checks
+        for tr in cfg.get("translators", []):
+            rc, out = sh(["python3", os.path.join(ROOT, "extract", tr)], timeout=300)
+            self.oblige(f"translator extract/{tr} (regenerates facts from /repo source)", rc == 0, out[-600:])
+            self.notes.append(f"extract/{tr}: {out.strip()[:300]}")
         if not self.proof_side():
             return self.finish()
-        # translators
-        for tr in cfg.get("translators", []):
-            ok, detail = tr(self)
-            self.oblige(f"translator {tr.__name__}", ok, detail)
         # harness build(s)
         harnesses = {}
         for profile in cfg.get("profiles", ["debug"]):
